@@ -893,7 +893,13 @@ def run_tomo(inp):
     end, raised, pt = "done", None, None
     with sched.install(), Patch(tomo, available_cpus=lambda: cpus, _tomography_sequence_worker=stub_worker):
         try:
-            pt = tomo.run(H, params, timesteps=[0.1], num_trajectories=n_traj, noise_model=make_noise(L))
+            if inp.get("via_params", inp["sub"] % 2):
+                # the noise model reaches tomography through sim_params.noise_model (documented fallback): the number of
+                # trajectories per sequence must still be the requested one
+                params.noise_model = make_noise(L)
+                pt = tomo.run(H, params, timesteps=[0.1], num_trajectories=n_traj, noise_model=None)
+            else:
+                pt = tomo.run(H, params, timesteps=[0.1], num_trajectories=n_traj, noise_model=make_noise(L))
         except StopSchedule:
             end = "open"
         except Runaway:
@@ -1016,8 +1022,8 @@ def gen(rng, tier):  # noqa: C901
         out.append({"kind": "same-set", "which": fronts[k % len(fronts)], "n": rng.randint(2, 9), "cpus": 3, "sub": sub(),
                     "profile": "flaky"})
     for k in range(4 if tier == "quick" else 20):
-        out.append({"kind": "tomo", "n_traj": rng.choice([1, 2, 3]), "cpus": rng.choice([2, 3, 9]), "sub": sub(),
-                    "profile": ["clean", "flaky", "bigbatch", "mixed"][k % 4]})
+        out.append({"kind": "tomo", "n_traj": rng.choice([1, 2, 3]) if k % 2 else rng.choice([2, 3]), "cpus": rng.choice([2, 3, 9]),
+                    "sub": sub(), "via_params": k % 2 == 0, "profile": ["clean", "flaky", "bigbatch", "mixed"][k % 4]})
     return out
 
 
